@@ -29,6 +29,7 @@ func main() {
 		verbose   = flag.Bool("v", false, "print every obligation")
 		listP     = flag.Bool("list-properties", false, "print registered properties as JSON")
 		crossB    = flag.String("cross-benign", "", "self-test: run benign variants (all, or those whose name contains the value) against ALL properties; exit 1 if any fires")
+		genA      = flag.String("gen-anchors", "", "write function fingerprints of the current tree to this file (run on the pinned tree only)")
 		listS     = flag.Bool("list-stale", false, "debug: list stale-read lint hits")
 		listW     = flag.Bool("list-writers", false, "debug: list controller-runtime writer call sites")
 		explain   = flag.String("explain", "", "replay: print the violated obligations recorded in this evidence file, then re-run")
@@ -100,7 +101,7 @@ func main() {
 			}
 			ids = append(ids, id)
 		}
-	case *dump != "", *listW, *listS, *crossB != "":
+	case *dump != "", *listW, *listS, *crossB != "", *genA != "":
 	default:
 		fmt.Fprintln(os.Stderr, "usage: pkocheck -property <id|all> [-tier quick|thorough]")
 		os.Exit(2)
@@ -147,6 +148,16 @@ func main() {
 			os.Exit(3)
 		}
 		fatal(ids, *evDir, "load-failure: %v", err)
+	}
+	if *genA != "" {
+		if err := genAnchors(prog, *genA); err != nil {
+			fmt.Fprintln(os.Stderr, err)
+			os.Exit(2)
+		}
+		return
+	}
+	for _, r := range prog.Renames {
+		fmt.Println("note: rename tracked: " + r)
 	}
 	if *dump != "" {
 		dumpFacts(prog, *dump)
